@@ -253,6 +253,50 @@ def r4(ctx, rep):
               "SourceTree::insert must allocate an id above every existing id", file=ins["file"], line=ins["l"], fn=ins["path"])
 
 
+def r5(ctx, rep):
+    rep.rule("C13.R5", "the reported line/column pair is the position of the span; the quoted text is the unmodified source", floor=4)
+    syn = ctx.syn
+    cl = syn.fn("ErrorMessage::compose_location", crate="prqlc")
+    inits = local_inits(cl)
+    s_ok = show(inits.get("start"), maxdepth=8) == "source.get_offset_line(span.start)?" or "span.start" in show(inits.get("start"), maxdepth=8)
+    e_ok = "span.end" in show(inits.get("end"), maxdepth=8)
+    rep.check(s_ok and e_ok and "span.end" not in show(inits.get("start"), maxdepth=8) and "span.start" not in show(inits.get("end"), maxdepth=8), "lookup-ends",
+              "start must be looked up from span.start and end from span.end", file=cl["file"], line=cl["l"], fn=cl["path"])
+    loc = None
+    for n in walk(cl["body"]):
+        if n.get("k") == "struct" and last_seg(n["p"]) == "SourceLocation":
+            loc = {a: show(b) for a, b in n["f"]}
+    rep.check(loc == {"start": "(start.1, start.2)", "end": "(end.1, end.2)"}, "location-fields",
+              f"SourceLocation must be start = (line, column) of the start lookup and end = (line, column) of the end lookup; found {loc}", file=cl["file"], line=cl["l"], fn=cl["path"])
+    # the text ariadne renders and indexes is the source text the spans were computed on
+    fe = [f for f in syn.fns if f["crate"] == "prqlc" and f.get("self_short") == "FileTreeCache" and f["name"] == "fetch"]
+    if len(fe) != 1:
+        raise AnchorMissing("FileTreeCache::fetch")
+    fe = fe[0]
+    srcs = [n for n in walk(fe["body"]) if n.get("k") == "call" and show(n["f"]) == "Source::from" and n["a"]]
+    ok = len(srcs) == 1
+    if ok:
+        a = srcs[0]["a"][0]
+        chain_methods = []
+        cur = a
+        while cur.get("k") == "mcall":
+            chain_methods.append(cur["m"])
+            cur = cur["r"]
+        base = show(cur)
+        ok = set(chain_methods) <= {"to_string", "clone", "to_owned", "as_str", "into"} and base == "file_contents"
+        rep.check(ok, "source-text-unmodified",
+                  f"ariadne must be given the file's text unchanged (spans are offsets into it); found `{show(a, maxdepth=6)}`: any rewriting (line endings, trimming) shifts every later offset",
+                  file=fe["file"], line=srcs[0]["l"], fn=fe["path"])
+    else:
+        rep.bad("source-text-unmodified", f"expected one Source::from(..) in FileTreeCache::fetch, found {len(srcs)}", file=fe["file"], line=fe["l"], fn=fe["path"])
+    fc = local_inits(fe).get("file_contents")
+    rep.check(fc is not None and "self.file_tree.sources.get(id)" in show(fc, maxdepth=8), "source-text-origin", "the rendered text must come from the SourceTree entry of that path", file=fe["file"], line=fe["l"], fn=fe["path"])
+    # Range::from(Span) keeps start..end
+    rf = [f for f in syn.fns if f["crate"] == "prqlc_parser" and f["file"].endswith("span.rs") and f["name"] == "from" and "Range" in f.get("ret", "") + f.get("self_ty", "")]
+    ok = any(show(tail_expr(f["body"])) in ("a.start..a.end", "span.start..span.end", "value.start..value.end") for f in rf)
+    rep.check(ok, "span-to-range", "Range::from(Span) must be start..end", file="prqlc/prqlc-parser/src/span.rs")
+
+
 def run(ctx, rep):
-    for r in (r1, r3, r4):
+    for r in (r1, r3, r4, r5):
         rep.guard(r, ctx)
